@@ -323,6 +323,25 @@ def p7b_build(size, perm):
         "src/a.xq": "foo(a)\n", "src/b.jsq": "foo(b)\n",
     }
 
+def p4d_build(size, perm):
+    (pc,) = perm
+    # $F (the callee) and $CALL (the call) START AT THE SAME BYTE; their constraints depend on each
+    # other through $K (whichever is checked first binds it)
+    cons = [
+        ("CALL", {"has": {"kind": "arguments", "has": {"kind": "identifier", "pattern": "$K"}}}),
+        ("F", {"pattern": "$K"}),
+    ]
+    rule = {"id": "p4d", "language": JS, "severity": "warning",
+            "rule": {"kind": "identifier", "pattern": "$F", "inside": {"kind": "call_expression", "pattern": "$CALL"}},
+            "constraints": omap(cons, pc),
+            "transform": {"T": {"replace": {"source": "$K", "replace": "^", "by": "#"}}},
+            "message": "callee $F is its own argument $K ($T)", "fix": "self_$K"}
+    return {
+        "sgconfig.yml": json.dumps(SGCONFIG),
+        "rules/p4d.yml": docs(rule),
+        "src/a.js": "f(x, f)\ng(g, y)\nh(a, b)\nk(k)\nm(n, m, m)\n",
+    }
+
 
 def projects():
     return [
@@ -338,6 +357,8 @@ def projects():
                 lambda s: [("constraints keys", 2)], p4b_build, tests=True, fixes=True, bound_vars=["X"]),
         Project("P4c", "constraint on $A binds $X to one of several candidates (`has`), constraint on $B uses $X",
                 lambda s: [("constraints keys", 2)], p4c_build, tests=False, fixes=True, bound_vars=["X"]),
+        Project("P4d", "two constrained captures that start at the same byte (callee and call), constraints linked through $K",
+                lambda s: [("constraints keys", 2)], p4d_build, tests=False, fixes=True, bound_vars=["K"]),
         Project("P5", "rewriters used by one rewrite transform (definition list order x use list order)",
                 lambda s: [("rewriters definitions", s), ("transform rewriters list", s)], p5_build, tests=True, fixes=True),
         Project("P6", "rule files (names permuted), overlapping fixes, global utilDirs rules depending on each other",
@@ -351,8 +372,8 @@ def projects():
 
 # size parameter of every project per tier (number of keys of the permuted map)
 SIZES = {
-    "quick":    {"P1": 3, "P2": 3, "P3": 3, "P4a": 3, "P4b": 2, "P4c": 2, "P5": 2, "P6": 2, "P7a": 3, "P7b": 2},
-    "thorough": {"P1": 4, "P2": 4, "P3": 4, "P4a": 3, "P4b": 2, "P4c": 2, "P5": 3, "P6": 3, "P7a": 3, "P7b": 2},
+    "quick":    {"P1": 3, "P2": 3, "P3": 3, "P4a": 3, "P4b": 2, "P4c": 2, "P4d": 2, "P5": 2, "P6": 2, "P7a": 3, "P7b": 2},
+    "thorough": {"P1": 4, "P2": 4, "P3": 4, "P4a": 3, "P4b": 2, "P4c": 2, "P4d": 2, "P5": 3, "P6": 3, "P7a": 3, "P7b": 2},
 }
 SEEDS = {"quick": 8, "thorough": 48}      # seeds 0..S inclusive
 REPS = 2
